@@ -1,6 +1,6 @@
 (** The table theorem of C11, re-checked on every run against the table that
     tools/routes extracts from the current source (coq/Gen/Routes.v). *)
-From AGH Require Import Base.Run Model.AuthHttp Proofs.AuthHttp Proofs.AuthCreds Proofs.AuthMethod Gen.Routes.
+From AGH Require Import Base.Run Model.AuthHttp Model.AuthLife Proofs.AuthHttp Proofs.AuthCreds Proofs.AuthMethod Proofs.AuthLife Gen.Routes.
 
 Definition gen_table_ok : bool :=
   table_ok Gen.Routes.routes Gen.Routes.reg_empty Gen.Routes.reg_method
@@ -44,4 +44,20 @@ Definition gen_bad_methods : list (bytes * bytes) :=
       (List.filter (fun rt => negb (route_method_ok rt)) Gen.Routes.routes).
 
 Lemma all_routes_methods_canonical : forallb route_method_ok Gen.Routes.routes = true.
+Proof. vm_compute. reflexivity. Qed.
+
+(** Round 5: the routes after set-up, and when the wrapper constructors look
+    at the state ([route_after_setup_ok], [wrappers_lazy_ok] of
+    Proofs/AuthLife.v). *)
+Definition gen_bad_after_setup : list (bytes * bytes) :=
+  map (fun rt => (rt_pattern rt, rt_pos rt))
+      (List.filter (fun rt => negb (route_after_setup_ok Gen.Routes.reg_method rt)) Gen.Routes.routes).
+
+Lemma all_routes_after_setup : forallb (route_after_setup_ok Gen.Routes.reg_method) Gen.Routes.routes = true.
+Proof. vm_compute. reflexivity. Qed.
+
+Lemma wrappers_code_ok : wrappers_lazy_ok Gen.Routes.wrappers_lazy = true.
+Proof. vm_compute. reflexivity. Qed.
+
+Lemma configure_code_is_ok : configure_code_ok Gen.Routes.configure_code = true.
 Proof. vm_compute. reflexivity. Qed.
